@@ -171,6 +171,7 @@ pub fn run(ctx: &mut Ctx) {
     let pool = value_pool();
     let _ = gen_record(&mut Rng::new(1), &pool);
     // --- parenthesis ladders --------------------------------------------------------------------
+    crate::util::on_thread_stack(ctx, |ctx: &mut Ctx| {
     let ladders: [(&str, &str, &str, &str); 8] = [
         ("ladder-paren", "(", "a", ")"),
         ("ladder-paren-and", "(a and ", "b", ")"),
@@ -229,6 +230,7 @@ pub fn run(ctx: &mut Ctx) {
             }
         }
     }
+    });
     // --- valid filters: the text, its prefixes, its mutants; evaluation of whatever parses ----------
     let n = ctx.n(3_000, 80_000);
     for i in 0..n {
